@@ -162,6 +162,12 @@ def check(P, R):
     R.require(len(reads) + helper_reads >= 3, f'{f.fq}: {len(reads)} stream reads found, at least 3 expected (size line, payload, terminator)')
 
     # ---- a: payload loop
+    for n_ in walk_shallow(f.node):
+        if isinstance(n_, ast.While) and T.early_stop_bound(n_) and any(T.in_body_of(c, n_) for c in reads):
+            es_ = T.early_stop_bound(n_)
+            R.ob('C05.a', f, n_.test, False, text=f'while {src(n_.test)}', detail=
+                 f'the payload loop gives up while {es_[1]} byte(s) of the chunk are still outstanding: the terminator check then reads payload bytes and a legal body is refused '
+                 f'(or the payload is short)', why='the body is exactly the concatenation of the chunk payloads', key_extra='early-stop')
     loops = [n for n in walk_shallow(f.node) if isinstance(n, ast.While) and (T.counter_of_while(n) or T.countup_of_while(n))]
     loops = [l for l in loops if any(T.in_body_of(c, l) and T.loops_of(c)[0] is l for c in reads)]
     R.require(len(loops) == 1, f'{f.fq}: expected one `while remaining > 0` payload loop, found {len(loops)}')
@@ -381,6 +387,12 @@ def check(P, R):
     R.ob('C05.d', f, cap_node.ast if cap_node else f.node, capped, text='size-line scan capped by buff_size',
          detail='' if capped else 'no bound on the number of bytes scanned for a size line')
 
+    # what feeds the decoder / consumes its output: without a (usable) Content-Length the chunked body is decoded, and the parsed views read one byte more than
+    # the threshold so that an oversized chunked body is refused instead of being cut to the threshold (premises shared with C04.e / C13.e)
+    from ..report import Sub
+    c04.check_content_length(P, Sub(R, why='every legal chunked request is decoded: a missing or empty Content-Length is not an error'), 'C05.e')
+    from . import c13 as _c13
+    _c13.check_get_body_string(P, Sub(R, why='a partial body is never presented as complete: a chunked form longer than the threshold is refused, not truncated'), 'C05.c')
     # ---- e: mapping of request errors
     check_errors_mapping(P, R, 'C05.e')
     check_raise_and_body(P, R, 'C05.e')
